@@ -171,8 +171,14 @@ class SymInt:
         return self._bin(o, f, True)
 
     def __truediv__(self, o):
-        raise Concretized("true division of a symbolic integer (floating point arithmetic) is outside the encoding")
-    __rtruediv__ = __truediv__
+        # floating point is outside the encoding: the quotient is kept EXACT (a ratio).  Code that relies on float
+        # arithmetic is exposed by the boundary-biased concrete replay (values near the top of wide ranges).
+        if type(o) is int and o > 0:
+            return SymRatio(self, o)
+        raise Concretized("true division of a symbolic integer by a symbolic / non-positive value")
+
+    def __rtruediv__(self, o):
+        raise Concretized("true division by a symbolic integer")
 
     def __mod__(self, o):
         def f(a, b):
@@ -368,6 +374,26 @@ class SymBV:
     def __repr__(self): return "<symbv>"
     __str__ = __repr__
     __format__ = lambda self, spec: "<symbv>"
+
+
+class SymRatio:
+    """Exact quotient num/den (den a positive constant) - what `int / int` means mathematically."""
+    def __init__(self, num, den):
+        self.num, self.den = num, den
+
+    def __ceil__(self):
+        return (self.num + (self.den - 1)) // self.den
+
+    def __floor__(self):
+        return self.num // self.den
+
+    def __trunc__(self):
+        return self.num // self.den        # harness values are non-negative
+
+    __int__ = __trunc__
+
+    def __repr__(self):
+        return "<symratio>"
 
 
 class SymRange:
@@ -632,6 +658,8 @@ class Engine:
     def int(self, name, lo=None, hi=None):
         v = z3.Int(name)
         self._declared[name] = v
+        if hi is not None:
+            self._hi[name] = hi
         if lo is not None:
             self._add(v >= lo)
         if hi is not None:
@@ -782,6 +810,7 @@ class Engine:
             self._pos = 0
             self._taken = []
             self._declared = {}
+            self._hi = {}
             self._pending = []
             self._observed = []
             self._proof_idx = 0
@@ -849,6 +878,32 @@ class Engine:
                     if not any(m == bad[0] for m, _ in self.failures):
                         self.failures.append((bad[0], values))
                     return
-                raise Inconclusive(f"self-validation: symbolic and concrete outcomes differ for {values}: "
-                                   f"{sym_obs[:6]} vs {c.observed[:6]}")
+                # keep exploring: another path / input may turn this into a confirmed violation; if none does the
+                # whole run is inconclusive (the encoding does not represent the code)
+                self.unconfirmed.append(f"self-validation: symbolic and concrete outcomes differ for {values}: "
+                                        f"{sym_obs[:6]} vs {c.observed[:6]}")
+                return
             self.validated += 1
+            # boundary-biased second replay: push every wide-ranged input towards the top of its range (exposes code
+            # that is only correct for "small" integers, e.g. a detour through floating point)
+            wide = [n for n, hi in self._hi.items() if hi >= (1 << 50)]
+            if wide:
+                self.solver.push()
+                try:
+                    for n in wide:
+                        c = self._declared[n] >= self._hi[n] - 3
+                        if self._check(c) == "sat":
+                            self.solver.add(c)
+                    if self._check() == "sat":
+                        model = self.solver.model()
+                        values = self._values(model)
+                        c2, ab = run_concrete(fn, values)
+                        if not ab:
+                            bad = [m for m, ok in c2.proofs if not ok]
+                            if bad:
+                                if not any(m == bad[0] for m, _ in self.failures):
+                                    self.failures.append((bad[0], values))
+                            elif [self._eval(model, o) for o in self._observed] != c2.observed:
+                                self.unconfirmed.append(f"boundary replay: symbolic and concrete outcomes differ for {values}")
+                finally:
+                    self.solver.pop()
